@@ -5,3 +5,5 @@ import Bcder.Props.C13
 #print axioms Bcder.Props.C13.read_write
 #print axioms Bcder.Props.C13.read_eq_spec
 #print axioms Bcder.Props.C13.total_len
+#print axioms Bcder.Props.C13.write_prefix_free
+#print axioms Bcder.Props.C13.write_inj
